@@ -1527,6 +1527,17 @@ def table_lookup(table, k, node=None):
     if _plain(k) and d and all(kk in (0, 1, True, False) for kk in d) and len(d) == 2:
         # a table of two entries indexed by a truth value (bool(x), a comparison): the selection on it
         return phi(k, d[True] if True in d else d[1], d[False] if False in d else d[0])
+    if _plain(k) and 1 <= len(d) <= 8 and (all(isinstance(kk, str) for kk in d) or all(isinstance(kk, int) and not isinstance(kk, bool) for kk in d)):
+        # a table of texts / numbers indexed by a value that is not known: a key the table does not hold raises KeyError, so whatever runs after
+        # the lookup sees one of the entries - the selection on `k == key`, entry by entry (the last one when none of the others matched)
+        keys = list(d)
+        out = d[keys[-1]]
+        for kk in reversed(keys[:-1]):
+            c = compare_values(ast.Eq(), k, K.lift(kk))
+            if not _plain(c):
+                return Unknown("key of the literal table" + (f" at line {node.lineno}" if node is not None else ""))
+            out = phi(c, d[kk], out)
+        return out
     if isinstance(k, tuple) and len(k) <= 4:
         for i, x in enumerate(k):
             if K.conc(x) is K.NOT:
